@@ -24,6 +24,7 @@ def write(prop, tier, seed, plan, tot, wall, n_viol, violations, known_lines):
         "reach_probes": dict(sorted(tot["probes"].items())),
         "probes_stuck_at_zero": sorted(p for p in plan.get("want_probes", []) if not tot["probes"].get(p)),
         "determinism_double_runs": tot["det_checked"],
+        "planned_runs_not_started_before_the_wall_clock_budget": tot.get("cut", 0),
         "incidental_hits_other_properties": dict(sorted(tot["incidental"].items())),
         "components_real": plan.get("real", []),
         "components_stub": plan.get("stub", []),
